@@ -1124,7 +1124,15 @@ impl<E: Effect> Environment<E> {
         if let Some(pending) = self.pending_awaits.get_mut(&awaiter) {
             // This is part of an initial await - collect the response
             if let Some(worker_id) = sender_worker_id {
-                pending.responses.insert(worker_id, results.clone());
+                // A worker may report several times before the other workers have answered (its
+                // query answer, then one report per completion). Merge, so that a completion
+                // already received is not lost to a later report from the same worker.
+                let merged = pending.responses.entry(worker_id).or_default();
+                for (pid, result) in &results {
+                    if result.is_some() || !merged.contains_key(pid) {
+                        merged.insert(*pid, result.clone());
+                    }
+                }
                 pending.expected_workers.remove(&worker_id);
 
                 // Check if all workers have responded
